@@ -160,244 +160,151 @@ func c02confirm(c *Ctx, r *Report, rule string) {
 	}
 }
 
+// confirmChain: whenever instruction t of fn executes, a payload write was performed, then a read
+// from the remote returned a nil error and delivered 'F' or ';'. The three steps may sit in fn, in
+// an unexported helper fn calls (the helper then has to establish them on every return that can hand
+// back a nil error), or in the callers of fn when fn is itself an unexported helper (then at every
+// call) - see confirmAt in ip_g1.go.
 func confirmChain(c *Ctx, fn *ssa.Function, t ssa.Instruction) (bool, string) {
-	// W: calls in fn performing the payload write that dominate t
-	var writes []ssa.CallInstruction
-	eachInstr(fn, func(_ *ssa.BasicBlock, _ int, instr ssa.Instruction) {
-		if ci, ok := instr.(ssa.CallInstruction); ok && c.callPerforms(ci, "fbb.Session.writeCompressed") && instrDominates(instr, t) {
-			writes = append(writes, ci)
-		}
-	})
-	if len(writes) == 0 {
-		return false, "no call performing the payload write dominates this report: a message can be reported sent without having been transmitted in this function (lift the obligation or restore the order)"
-	}
-	conds := condsAt(t.Block())
-	var reasons []string
-	var found string
-	eachInstr(fn, func(_ *ssa.BasicBlock, _ int, instr ssa.Instruction) {
-		if found != "" {
-			return
-		}
-		rd, ok := instr.(*ssa.Call)
-		if !ok || !c.isRemoteRead(rd) {
-			return
-		}
-		afterWrite := false
-		for _, w := range writes {
-			if instrDominates(w, rd) {
-				afterWrite = true
-			}
-		}
-		if !afterWrite || !instrDominates(rd, t) {
-			return
-		}
-		ev := errResult(rd)
-		okEdge := false
-		for _, cd := range conds {
-			if is, isNil := nilTest(cd, ev); is && isNil {
-				okEdge = true
-			}
-		}
-		if !okEdge {
-			reasons = append(reasons, fmt.Sprintf("the read at %s is not followed by a test of its error whose nil edge dominates the report", c.pos(rd.Pos())))
-			return
-		}
-		// G: a guard on the data read
-		isData := func(v ssa.Value) bool {
-			ex, ok := v.(*ssa.Extract)
-			return ok && ex.Tuple == ssa.Value(rd) && ex.Index == 0
-		}
-		var guard []Cond
-		for _, cd := range conds {
-			// an equality with a constant that holds on this edge restricts the byte to that constant
-			if b, ok := cd.V.(*ssa.BinOp); ok && dependsOn(cd.V, isData) && (b.Op == token.EQL || b.Op == token.NEQ) && (b.Op == token.EQL) == cd.Truth {
-				if k, isC := constInt(b.Y); isC && (k == 'F' || k == ';') {
-					found = fmt.Sprintf("payload write (%s) -> remote read %s (%s) -> nil-error edge -> byte == %q -> report", c.pos(writes[0].Pos()), callName(rd.Common()), c.pos(rd.Pos()), string(rune(k)))
-					return
-				}
-			}
-		}
-		if guard == nil {
-			for _, g := range exitGuardsCached(fn) {
-				if !g.Head.Dominates(t.Block()) || g.Head == t.Block() || g.Exit.Dominates(t.Block()) || !rd.Block().Dominates(g.Head) || insideChain(g, t.Block()) {
-					continue
-				}
-				all := true
-				for _, cj := range g.Conj {
-					if !dependsOn(cj.V, isData) {
-						all = false
-					}
-				}
-				if all && regionOnlyErrorExits(g.Exit) {
-					guard = g.Conj
-					break
-				}
-			}
-			if guard == nil {
-				reasons = append(reasons, fmt.Sprintf("no guard on the byte read at %s separates the report from an error exit: any response confirms the block", c.pos(rd.Pos())))
-				return
-			}
-			// accepted bytes: complement of the conjunction (b != k1 && b != k2 ...) = {k1, k2, ...}
-			var accepted []string
-			for _, cj := range guard {
-				b, ok := cj.V.(*ssa.BinOp)
-				k, isC := int64(0), false
-				if ok {
-					k, isC = constInt(b.Y)
-				}
-				if !ok || !isC || ((b.Op == token.NEQ) != cj.Truth) || (b.Op != token.NEQ && b.Op != token.EQL) {
-					reasons = append(reasons, "the guard on the confirmation byte is not a comparison with constants")
-					return
-				}
-				if k != 'F' && k != ';' {
-					reasons = append(reasons, fmt.Sprintf("the guard lets the byte %q confirm the block; only 'F' and ';' can start the peer's next turn", string(rune(k))))
-					return
-				}
-				accepted = append(accepted, fmt.Sprintf("%q", string(rune(k))))
-			}
-			found = fmt.Sprintf("payload write (%s) -> remote read %s (%s) -> nil-error edge -> only %s pass (other bytes leave through an error exit) -> report", c.pos(writes[0].Pos()), callName(rd.Common()), c.pos(rd.Pos()), strings.Join(accepted, " or "))
-			return
-		}
-	})
-	if found != "" {
-		return true, found
-	}
-	if len(reasons) == 0 {
-		return false, "no read from the remote lies between the payload write and this report: the message is reported sent before the peer confirmed the block"
-	}
-	return false, strings.Join(reasons, "; ")
+	return c.confirmAt(fn, t, true, true, 0)
 }
 
-// c02process checks the receive loop.
+// readConfirms: the remote read rd of fn confirms at t: the nil edge of its error dominates t and a
+// guard on the byte it delivered lets only 'F' or ';' reach t. Returns the description of the chain
+// from the read on, or the reason why not.
+func (c *Ctx) readConfirms(fn *ssa.Function, rd *ssa.Call, t ssa.Instruction) (found, reason string) {
+	conds := condsAt(t.Block())
+	ev := errResult(rd)
+	okEdge := false
+	for _, cd := range conds {
+		if is, isNil := nilTest(cd, ev); is && isNil {
+			okEdge = true
+		}
+	}
+	if !okEdge {
+		return "", fmt.Sprintf("the read at %s is not followed by a test of its error whose nil edge dominates the report", c.pos(rd.Pos()))
+	}
+	// G: a guard on the data read
+	isData := func(v ssa.Value) bool {
+		ex, ok := v.(*ssa.Extract)
+		return ok && ex.Tuple == ssa.Value(rd) && ex.Index == 0
+	}
+	for _, cd := range conds {
+		// an equality with a constant that holds on this edge restricts the byte to that constant
+		if b, ok := cd.V.(*ssa.BinOp); ok && dependsOn(cd.V, isData) && (b.Op == token.EQL || b.Op == token.NEQ) && (b.Op == token.EQL) == cd.Truth {
+			if k, isC := constInt(b.Y); isC && (k == 'F' || k == ';') {
+				return fmt.Sprintf("remote read %s (%s) -> nil-error edge -> byte == %q -> report", callName(rd.Common()), c.pos(rd.Pos()), string(rune(k))), ""
+			}
+		}
+	}
+	var guard []Cond
+	for _, g := range exitGuardsCached(fn) {
+		if !g.Head.Dominates(t.Block()) || g.Head == t.Block() || g.Exit.Dominates(t.Block()) || !rd.Block().Dominates(g.Head) || insideChain(g, t.Block()) {
+			continue
+		}
+		all := true
+		for _, cj := range g.Conj {
+			if !dependsOn(cj.V, isData) {
+				all = false
+			}
+		}
+		if all && regionOnlyErrorExits(g.Exit) {
+			guard = g.Conj
+			break
+		}
+	}
+	if guard == nil {
+		return "", fmt.Sprintf("no guard on the byte read at %s separates the report from an error exit: any response confirms the block", c.pos(rd.Pos()))
+	}
+	// accepted bytes: complement of the conjunction (b != k1 && b != k2 ...) = {k1, k2, ...}
+	var accepted []string
+	for _, cj := range guard {
+		b, ok := cj.V.(*ssa.BinOp)
+		k, isC := int64(0), false
+		if ok {
+			k, isC = constInt(b.Y)
+		}
+		if !ok || !isC || ((b.Op == token.NEQ) != cj.Truth) || (b.Op != token.NEQ && b.Op != token.EQL) {
+			return "", "the guard on the confirmation byte is not a comparison with constants"
+		}
+		if k != 'F' && k != ';' {
+			return "", fmt.Sprintf("the guard lets the byte %q confirm the block; only 'F' and ';' can start the peer's next turn", string(rune(k)))
+		}
+		accepted = append(accepted, fmt.Sprintf("%q", string(rune(k))))
+	}
+	return fmt.Sprintf("remote read %s (%s) -> nil-error edge -> only %s pass (other bytes leave through an error exit) -> report", callName(rd.Common()), c.pos(rd.Pos()), strings.Join(accepted, " or ")), ""
+}
+
+// c02process checks the receive pipeline: payload read -> Proposal.Message -> ProcessInbound ->
+// Received statistics. The pipeline is found by role - the calls of the payload read, the interface
+// calls of ProcessInbound and the stores to the Received statistics anywhere in package fbb - and may
+// be spread over unexported helpers connected by static calls (ip_g1.go): a fact needed at an
+// instruction of a helper may hold at every call of the helper instead, with the helper's
+// parameters bound to the actual arguments, and the success of a helper call stands for the success
+// of the call inside it when the helper returns nil on no other path.
 func c02process(c *Ctx, r *Report, rule string) {
 	r.Rule(rule, 4, "received messages are processed before anything else happens")
-	fn := c.Func("fbb", "(*Session).handleInbound")
-	if fn == nil {
-		r.Fail(rule, "anchor (*fbb.Session).handleInbound not found")
-		return
+	var reads, procs []*ssa.Call
+	var stores []*ssa.Store
+	for _, fn := range c.SrcFuncs("fbb") {
+		eachInstr(fn, func(_ *ssa.BasicBlock, _ int, instr ssa.Instruction) {
+			switch x := instr.(type) {
+			case *ssa.Call:
+				switch {
+				case callName(&x.Call) == payloadRead:
+					reads = append(reads, x)
+				case invokes(x, "ProcessInbound"):
+					procs = append(procs, x)
+				}
+			case *ssa.Store:
+				if strings.HasSuffix(pathOf(x.Addr), ".trafficStats.Received") {
+					stores = append(stores, x)
+				}
+			}
+		})
 	}
-	where := fnName(fn)
-	var reads, procs, msgs []*ssa.Call
-	eachInstr(fn, func(_ *ssa.BasicBlock, _ int, instr ssa.Instruction) {
-		call, ok := instr.(*ssa.Call)
-		if !ok {
-			return
-		}
-		switch {
-		case c.callPerforms(call, "fbb.Session.readCompressed") && callName(&call.Call) == "fbb.Session.readCompressed":
-			reads = append(reads, call)
-		case invokes(call, "ProcessInbound"):
-			procs = append(procs, call)
-		case callName(&call.Call) == "fbb.Proposal.Message":
-			msgs = append(msgs, call)
-		}
-	})
 	if len(reads) == 0 || len(procs) == 0 {
-		r.Fail(rule, "handleInbound: payload read calls %d, ProcessInbound calls %d (anchors unresolved)", len(reads), len(procs))
+		r.Fail(rule, "receive pipeline: payload read calls %d, ProcessInbound calls %d (anchors unresolved)", len(reads), len(procs))
 		return
 	}
 	for _, rd := range reads {
-		// (1) from the ok edge of the payload read, every path to the loop header, to a normal return
-		// or to a write on the connection passes through ProcessInbound
-		o := r.Add(rule, where, "after payload read: ProcessInbound on every continuing path", c.pos(rd.Pos()))
-		ev := errResult(rd)
-		var okBlock *ssa.BasicBlock
-		for _, ref := range *ev.Referrers() {
-			if b, ok := ref.(*ssa.BinOp); ok && isNilConst(b.Y) {
-				for _, r2 := range *b.Referrers() {
-					if ifi, ok := r2.(*ssa.If); ok {
-						if b.Op == token.NEQ {
-							okBlock = ifi.Block().Succs[1]
-						} else {
-							okBlock = ifi.Block().Succs[0]
-						}
-					}
-				}
-			}
-		}
-		if okBlock == nil {
+		// (1) from the ok edge of the payload read, every path to the next round, to the end of the
+		// turn or to a write on the connection passes through ProcessInbound
+		fn := rd.Parent()
+		o := r.Add(rule, fnName(fn), "after payload read: ProcessInbound on every continuing path", c.pos(rd.Pos()))
+		starts, tested := c.okStarts(rd, 0)
+		if !tested {
 			o.Bad("the error of the payload read at %s is not tested", c.pos(rd.Pos()))
 			continue
 		}
-		isProc := func(b *ssa.BasicBlock) bool {
-			for _, in := range b.Instrs {
-				if call, ok := in.(*ssa.Call); ok && invokes(call, "ProcessInbound") {
-					return true
+		w := &procWalk{c: c, seen: map[*ssa.BasicBlock]bool{}}
+		for _, st := range starts {
+			w.walk(st.b, st.idx, st.anchor, 0)
+		}
+		if w.leak == "" {
+			for _, k := range w.calls {
+				if where := c.errLeavesUp(k, 0); where != "" {
+					w.leak = "the code after " + c.exprAt(k.Parent(), k.Pos()) + " (its error, which stands for a message that was not stored, is dropped in " + where + ")"
 				}
 			}
-			return false
 		}
-		var leak string
-		seen := map[*ssa.BasicBlock]bool{}
-		var walk func(b *ssa.BasicBlock)
-		walk = func(b *ssa.BasicBlock) {
-			if seen[b] || leak != "" {
-				return
-			}
-			seen[b] = true
-			if isProc(b) {
-				return // passes through ProcessInbound: fine from here (its error is checked below)
-			}
-			for _, in := range b.Instrs {
-				switch x := in.(type) {
-				case *ssa.Return:
-					if !isErrorExit(x) {
-						leak = "a normal return at " + c.pos(x.Pos())
-					}
-				case *ssa.Call:
-					n := callName(&x.Call)
-					if x != rd && (n == "fbb.Session.readCompressed") {
-						leak = "the next payload read at " + c.pos(x.Pos())
-					}
-					if n == "fmt.Fprintf" || n == "fmt.Fprint" || strings.HasSuffix(n, ".writeProposalsAnswer") {
-						leak = "a write to the connection at " + c.pos(x.Pos())
-					}
-				case *ssa.Store:
-					if strings.HasSuffix(pathOf(x.Addr), ".trafficStats.Received") {
-						leak = "the Received statistics at " + c.pos(x.Pos())
-					}
-				}
-			}
-			if b.Dominates(rd.Block()) && b != rd.Block() {
-				leak = "the next loop iteration (" + b.Comment + ")"
-			}
-			if leak != "" {
-				return
-			}
-			for _, s := range b.Succs {
-				walk(s)
-			}
-		}
-		walk(okBlock)
-		if leak == "" {
+		if w.leak == "" {
 			o.OK("every path from the success edge of the payload read reaches ProcessInbound or leaves through an error exit")
 		} else {
-			o.Bad("after a successful payload read, %s is reachable without ProcessInbound: a received message can be dropped or counted without being stored", leak)
+			o.Bad("after a successful payload read, %s is reachable without ProcessInbound: a received message can be dropped or counted without being stored", w.leak)
 		}
 	}
 	for _, pc := range procs {
-		// (2) the error of ProcessInbound leaves the function
-		o := r.Add(rule, where, "ProcessInbound error leaves the function", c.pos(pc.Pos()))
-		ev := errResult(pc)
-		left := false
-		if ev != nil {
-			for _, ret := range returnsOf(fn) {
-				if origin(resOf(ret, len(ret.Results)-1)) == ev {
-					for _, cd := range condsAt(ret.Block()) {
-						if is, isNil := nilTest(cd, ev); is && !isNil {
-							left = true
-						}
-					}
-				}
-			}
-		}
-		if left {
+		fn := pc.Parent()
+		// (2) the error of ProcessInbound ends the turn
+		o := r.Add(rule, fnName(fn), "ProcessInbound error leaves the function", c.pos(pc.Pos()))
+		if where := c.errLeavesUp(pc, 0); where == "" {
 			o.OK("the non-nil edge of the handler's error returns it")
 		} else {
-			o.Bad("a storage error reported by the inbound handler does not end the turn: the sender would take the message as delivered")
+			o.Bad("a storage error reported by the inbound handler does not end the turn (dropped in %s): the sender would take the message as delivered", where)
 		}
 		// (3) its argument is the verified message
-		o = r.Add(rule, where, "ProcessInbound receives the verified message", c.pos(pc.Pos()))
+		o = r.Add(rule, fnName(fn), "ProcessInbound receives the verified message", c.pos(pc.Pos()))
 		var arg ssa.Value
 		if sl, ok := pc.Call.Args[0].(*ssa.Slice); ok {
 			if al, ok := sl.X.(*ssa.Alloc); ok {
@@ -412,63 +319,26 @@ func c02process(c *Ctx, r *Report, rule string) {
 				}
 			}
 		}
-		var from *ssa.Call
-		if arg != nil {
-			dependsOn(arg, func(v ssa.Value) bool {
-				if ex, ok := v.(*ssa.Extract); ok && ex.Index == 0 {
-					if call, ok := ex.Tuple.(*ssa.Call); ok && callName(&call.Call) == "fbb.Proposal.Message" {
-						from = call
-						return true
-					}
-				}
-				return false
-			})
-		}
-		switch {
-		case from == nil:
+		if arg == nil {
 			o.Bad("the message handed to ProcessInbound is not the result of Proposal.Message (decompress and verify)")
-		case !okEdgeDominates(from, pc.Block()):
-			o.Bad("the message is handed to ProcessInbound although the error of Proposal.Message at %s was not tested: damaged data can be delivered", c.pos(from.Pos()))
-		default:
-			// and Message() is called on the proposal that was just read, after the read succeeded
-			rdOK := false
-			for _, rd := range reads {
-				if okEdgeDominates(rd, from.Block()) && pathOf(rd.Call.Args[len(rd.Call.Args)-1]) == pathOf(from.Call.Args[0]) {
-					rdOK = true
-				}
-			}
-			if rdOK {
-				o.OK("argument is result 0 of Proposal.Message on the proposal just read; both nil-error edges dominate the call")
-			} else {
-				o.Bad("Proposal.Message is not called on the proposal whose payload read just succeeded")
-			}
+		} else if ok, why := c.verifiedMessage(fn, arg, pc, 0); ok {
+			o.OK("argument is result 0 of Proposal.Message on the proposal just read; both nil-error edges dominate the call")
+		} else {
+			o.Bad("%s", why)
 		}
 	}
 	// (4) Received statistics
-	nRecv := 0
-	eachInstr(fn, func(_ *ssa.BasicBlock, _ int, instr ssa.Instruction) {
-		st, ok := instr.(*ssa.Store)
-		if !ok || !strings.HasSuffix(pathOf(st.Addr), ".trafficStats.Received") {
-			return
-		}
-		nRecv++
-		o := r.Add(rule, where, "store to TrafficStats.Received", c.pos(st.Pos()))
-		good := false
-		for _, pc := range procs {
-			if okEdgeDominates(pc, st.Block()) {
-				good = true
-			}
-		}
-		if good {
+	for _, st := range stores {
+		o := r.Add(rule, fnName(st.Parent()), "store to TrafficStats.Received", c.pos(st.Pos()))
+		if c.processedBefore(st.Parent(), st.Block(), 0) {
 			o.OK("dominated by the nil-error edge of ProcessInbound")
 		} else {
 			o.Bad("a message is counted as received without the success edge of ProcessInbound dominating the store")
 		}
-	})
-	if nRecv == 0 {
-		r.Add(rule, where, "store to TrafficStats.Received", c.pos(fn.Pos())).Bad("received messages are never recorded in the traffic statistics")
 	}
-	_ = msgs
+	if len(stores) == 0 {
+		r.Add(rule, fnName(reads[0].Parent()), "store to TrafficStats.Received", c.pos(reads[0].Parent().Pos())).Bad("received messages are never recorded in the traffic statistics")
+	}
 }
 
 // storeErrRule: a failure to store an inbound message in the directory mailbox reaches the session
